@@ -1026,6 +1026,11 @@ package go_clipper2
 //@   props C01 C13
 //@   requires dom(ln1a,29) && dom(ln1b,29) && dom(ln2a,29) && dom(ln2b,29)
 //@   ensures [parallel] (cross(ln1a, ln1b, Point64{ln1b.X + (ln2b.X-ln2a.X), ln1b.Y + (ln2b.Y-ln2a.Y)}) == 0) == !result1
+
+//@ func getSegmentIntersectPt variant box
+//@   props C01
+//@   tier B
+//@   requires dom(ln1a,29) && dom(ln1b,29) && dom(ln2a,29) && dom(ln2b,29)
 //@   ensures [within-box] result1 ==> (min(ln1a.X, ln1b.X) <= result0.X && result0.X <= max(ln1a.X, ln1b.X) && min(ln1a.Y, ln1b.Y) <= result0.Y && result0.Y <= max(ln1a.Y, ln1b.Y))
 
 //@ func getSegmentIntersectPt variant maxcoord
